@@ -504,11 +504,22 @@ class ResultQuantifier(CanBehaveLikeAVariable[T], ABC):
         Evaluate the query and map the results to the correct output data structure.
         This is the exposed evaluation method for users.
         """
-        SymbolGraph().remove_dead_instances()
         # a new top-level evaluation starts from a clean slate: evaluating a (rule) query again gives the same answers
-        for node in self._descendants_:
+        nodes = list(self._descendants_)
+        # selected variables are not nodes below the query descriptor
+        for variable in self._all_variable_instances_:
+            nodes.extend(variable._all_nodes_)
+        for node in nodes:
             node._forget_evaluation_memory_()
-        yield from map(self._process_result_, self._evaluate__())
+        # after the variables have let go of what they had cached
+        SymbolGraph().remove_dead_instances()
+        try:
+            yield from map(self._process_result_, self._evaluate__())
+        finally:
+            # ... and a variable without a given domain does not hold on to what it has seen once the evaluation is over
+            for node in nodes:
+                if isinstance(node, Variable):
+                    node._forget_evaluation_memory_()
 
     def _evaluate__(
         self,
@@ -902,6 +913,11 @@ class From:
     The domain to use for the symbolic variable.
     """
 
+    symbol_graph_type: Optional[Type] = None
+    """
+    Set when no domain was given and the domain is the symbol graph's instances of this type (``let(T, domain=None)``).
+    """
+
 
 @dataclass(eq=False, repr=False)
 class Variable(CanBehaveLikeAVariable[T]):
@@ -975,6 +991,17 @@ class Variable(CanBehaveLikeAVariable[T]):
             elif not is_iterable(domain):
                 domain = [HashedValue(domain)]
             self._domain_.set_iterable(domain)
+
+    def _forget_evaluation_memory_(self) -> None:
+        """
+        A variable without a given domain ranges over the instances that exist when its query is evaluated: it does
+        not keep (alive) the instances an earlier evaluation has seen. Given domains keep their cache.
+        """
+        source = self._domain_source_
+        if source is not None and source.symbol_graph_type is not None:
+            source.domain = SymbolGraph().get_instances_of_type(source.symbol_graph_type)
+            self._domain_ = HashedIterable()
+            self._update_domain_(source.domain)
 
     def _update_child_vars_from_kwargs_(self):
         for k, v in self._kwargs_.items():
